@@ -4,8 +4,11 @@
 package kit
 
 import (
+	"context"
+	"errors"
 	"sort"
 	"strings"
+	"sync/atomic"
 
 	"github.com/golang/protobuf/proto"
 	"github.com/hashicorp/memberlist"
@@ -103,4 +106,36 @@ func EncodeEvent(ev *api.StateBroadcastEvent) []byte {
 		panic(err)
 	}
 	return b
+}
+
+// flakyRecorder is an audit sink whose RecordEvent fails whenever *fail is set.
+// The audit event-kind type is unexported; the type parameter is inferred from
+// the method value of the stock recorder.
+type flakyRecorder[E any] struct {
+	fail *atomic.Bool
+	n    *atomic.Int64
+}
+
+func (f flakyRecorder[E]) RecordEvent(tenant string, kind E, payload map[string]string) error {
+	f.n.Add(1)
+	if f.fail.Load() {
+		return errors.New("injected audit sink failure")
+	}
+	return nil
+}
+func (f flakyRecorder[E]) Consume(ctx context.Context, consumer func(timestamp int64, tenant, service, eventKind string, payload map[string]string)) error {
+	<-ctx.Done()
+	return nil
+}
+
+func mkFlaky[E any](_ func(string, E, map[string]string) error, fail *atomic.Bool, n *atomic.Int64) flakyRecorder[E] {
+	return flakyRecorder[E]{fail: fail, n: n}
+}
+
+// NewReplicaFlakyAudit is NewReplica with an audit sink that fails while *fail is set;
+// events counts the RecordEvent calls.
+func NewReplicaFlakyAudit(id uint64, fail *atomic.Bool, events *atomic.Int64) *Replica {
+	q := NewQueue()
+	var rec audit.Recorder = mkFlaky(audit.NoneRecorder().RecordEvent, fail, events)
+	return &Replica{ID: id, Q: q, S: distributed.NewState(id, q, rec)}
 }
